@@ -105,6 +105,7 @@ def run(rep, ctx, tier):
                         "the sampler's modulus is the same column count" if ok2 else
                         "the sampler's modulus at %s is %s, calculate_t was given %s" % (
                             st["span"], "computed" if c2 else sorted(callres_names(f, s2)), sorted(expect)), st["span"])
+    calculate_t_params(rep, ctx)
     # inside the sampler
     sb = f.bodies.get(SAMPLER)
     if sb is None:
@@ -163,3 +164,24 @@ def run(rep, ctx, tier):
     rep.add("R11", "sampler:bytes-per-index-from-modulus", ok,
             "the number of bytes squeezed per index is computed from the codeword length alone" if ok else
             why + ": indices cover only a prefix of the codeword", sb.span)
+
+
+def calculate_t_params(rep, ctx, rule="R11"):
+    """every parameter of calculate_t (security level, distance, codeword length - the cap) takes part in its result."""
+    from ..flow import Graph, OUTCOME
+    f = ctx.facts
+    b = None
+    for x in f.bodies.values():
+        if x.kind != "Closure" and x.name == "calculate_t" and not x.self_adt:
+            b = x
+    if b is None:
+        rep.add(rule, "calculate_t:anchor", False, "calculate_t not found (fail closed)", None)
+        return
+    g = Graph(f, f.closure([b.id], None), [b.id], None)
+    for i in range(1, b.arg_count + 1):
+        nm = b.locals[i].get("name") or "_%d" % i
+        g.reach([(b.id, i)], want=OUTCOME)
+        ok = g.last_goal is not None
+        rep.add(rule, "calculate_t:uses:%s" % nm, ok,
+                "parameter `%s` takes part in the number of opened columns" % nm if ok else
+                "parameter `%s` of calculate_t no longer influences its result" % nm, b.span)
